@@ -78,6 +78,17 @@ def model_joint(case, drv):
 def gen_joint(rng, tier):
     case = gen_lg(rng, tier)
     n = len(case["nodes"])
+    if n >= 2 and rng.random() < .15:
+        # variables on very different scales (a micro-scale sensor next to a macro-scale one, a large gain on an edge): the observed
+        # covariance is badly conditioned but positive definite, and conditioning on it is still well defined
+        vs = rng.sample(range(n), 2)
+        case["var"][vs[0]] = rs(Fraction(1, 10 ** 6))
+        case["var"][vs[1]] = rs(Fraction(10 ** 4))
+        for key in list(case["w"]):
+            u, v = map(int, key.split(","))
+            if u == vs[0]:
+                case["w"][key] = rs(Fraction(rng.choice([1000, -1000, 500])))
+        case["scales"] = True
     miss = rng.sample(range(n), rng.randint(1, max(1, n - 1))) if n > 1 else []
     case["missing"] = miss
     case["rows"] = [[rs(Fraction(rng.randint(-10, 10), 2)) for _ in range(n)] for _ in range(rng.randint(1, 3))]
@@ -290,6 +301,26 @@ def run_gd(case, drv):
             back = cf.to_joint_gaussian()
             res, exp_mean, exp_cov, keep = back, mean, cov, list(range(n))
         else:
+            if n >= 2 and (len(sub) + n) % 2:
+                # two Gaussians over the SAME variables, listed in different orders: precisions and information vectors add, aligned by name
+                from pgmpy.factors.distributions import GaussianDistribution as GD_
+                perm_ = list(range(n))[1:] + [0] if n > 2 else [1, 0]
+                d2 = [1.0 + 0.5 * i for i in range(n)]                # second factor: independent components, by variable index
+                mu2 = [0.5 * i - 1.0 for i in range(n)]
+                g2 = GD_([vars_[i] for i in perm_], [[mu2[i]] for i in perm_], [[d2[i] if i == j else 0.0 for j in perm_] for i in perm_])
+                res = gd * g2
+                K1 = np.linalg.inv(np.asarray(cov, dtype=float))
+                K2 = np.diag([1.0 / x for x in d2])
+                Cn = np.linalg.inv(K1 + K2)
+                mn_ = Cn @ (K1 @ np.asarray(mean, dtype=float) + K2 @ np.asarray(mu2))
+                idx = [res.variables.index(x) for x in vars_]
+                rm = np.asarray(res.mean).reshape(-1)[idx]
+                rc = np.asarray(res.covariance)[np.ix_(idx, idx)]
+                tol_ = (1e-6 + 1e-13 * np.linalg.cond(np.asarray(cov, dtype=float))) * max(1.0, float(np.abs(Cn).max()), float(np.abs(mn_).max()))
+                if np.abs(rm - mn_).max() > tol_ or np.abs(rc - Cn).max() > tol_:
+                    return fail(f"product of two Gaussians over the same variables (second listed as {[vars_[i] for i in perm_]}): mean {rm} cov {rc}; "
+                                f"adding precisions and information vectors by variable name gives mean {mn_} cov {Cn}", **tags)
+                return ok(nontrivial=True, **tags)
             # product of the marginal over `keep` with itself-conditionally... use two marginals over disjoint blocks: independent product
             a = gd.marginalize([vars_[i] for i in sub], inplace=False)
             b = gd.marginalize([vars_[i] for i in keep], inplace=False)
